@@ -6,7 +6,8 @@ Engine E1 (explicit-state BFS over request histories on the real allocators), tw
            kernel32_HeapAlloc, kernel32_VirtualAlloc (stdcall) and msvcrt_malloc (cdecl), driven through a real
            x86_32 jitter (python backend) with the arguments and a return address pushed on its stack;
   "linux"  LinuxEnvironment_x86_32.mmap (non-fixed and MAP_FIXED, hint 0 / free / occupied / adjacent / straddling)
-           and .brk (query, grow, shrink, same) on a real VmMngr; MAP_FIXED additionally at a second free address two pages
+           and .brk (query, grow, shrink, same; and below / at the start of / inside / at the end of / past a foreign
+           mapping that an earlier MAP_FIXED or hinted mmap put 1..3 pages above the break) on a real VmMngr; MAP_FIXED additionally at a second free address two pages
            above the first so that one-page holes between mappings exist.
 
 Reference model: the set of live allocations [addr, addr+size) (plus the pages that existed before the first
@@ -15,7 +16,10 @@ page list, is disjoint from every other live allocation and does not start at th
 allocation (zero-sized ones included). MAP_FIXED is the one request that is *meant* to replace what it covers: there
 the model drops the covered allocations and only demands `returned == requested` and `covered by pages`. A
 VirtualAlloc whose hint is the base of a live allocation is a re-commit (returns the hint, allocates nothing).
-In every state the VM's non-empty pages must be pairwise disjoint and every live allocation still mapped.
+A brk request either moves the break (then the whole data segment [initial break, new break) must be covered by
+pages and must not run over a live allocation) or is refused the Linux way (old break returned), which is only
+legitimate when a live allocation is in the way. In every state the VM's non-empty pages must be pairwise disjoint
+and every live allocation, the data segment included, still mapped.
 
 The C VmMngr is only the container of mappings here: pages are read back from its page dump, never through its
 lookup functions.
@@ -37,8 +41,7 @@ LEVEL_TEXT = ("Explicit-state search of every request history up to the depth bo
               "adjacent / straddling hint addresses.")
 LEVEL_NOTE = ("Trusted: the installed VmMngr extension as a container of (address, size) pages (its lookup code is not used), the "
               "jitter's stdcall/cdecl argument passing. Not covered: GlobalAlloc/LocalAlloc/new/realloc/calloc (same heap.alloc path), "
-              "ZwAllocateVirtualMemory, ExAllocatePool*, file-backed mmap, mmap hints inside the brk area, brk below its initial "
-              "value, 32-bit wrap-around of the bump pointer, other architectures' LinuxEnvironment subclasses (same code).")
+              "ZwAllocateVirtualMemory, ExAllocatePool*, file-backed mmap, brk below its initial value, 32-bit wrap-around of the bump pointer, other architectures' LinuxEnvironment subclasses (same code).")
 TECHNIQUE = "explicit-state BFS over allocation request histories on the real allocators against a live-interval-set model"
 ASSUMPTIONS = ["allocator behaviour depends on sizes only through the page-size classes {0, 1, 0xFFF, 0x1000, 0x1001}",
                "the installed VmMngr extension records pages faithfully (container only)"]
@@ -219,10 +222,41 @@ def _lin_hint(st, hint):
         return LIN_FREE_HINT
     if hint == "free2":
         return LIN_FREE_HINT + 0x2000   # leaves a one-page hole above a small mapping at the first hint
+    if hint.startswith("brk+"):
+        return st.brk_cur + int(hint[4]) * 0x1000   # a foreign mapping 1..3 pages above the current break
     o = _last_live(st, 1)
     if o is None:
         return None
     return {"occ": o["addr"], "adj": o["addr"] + o["size"], "last": o["addr"] + o["size"] - 1}[hint]
+
+
+BRK_HINTS = ("brk+1p", "brk+2p", "brk+3p")
+BRK_HINT_SIZES = (1, 0x1000)
+BRK_TARGETS = ("f-below", "f-start", "f-inside", "f-end", "f-past")
+
+
+def _foreign_above(st):
+    """lowest live non-empty allocation at or above the break and close to it"""
+    best = None
+    for o in st.live:
+        if o["size"] and st.brk_cur <= o["addr"] < st.brk_cur + 0x10000 and (best is None or o["addr"] < best["addr"]):
+            best = o
+    return best
+
+
+def _brk_target(st, d):
+    """requested break for a brk event, None when the event is not enabled"""
+    if d == "same":
+        return st.brk_cur
+    if isinstance(d, int):
+        new = st.brk_cur + d
+    else:
+        f = _foreign_above(st)
+        if f is None:
+            return None
+        new = {"f-below": f["addr"] - 0x800, "f-start": f["addr"], "f-inside": f["addr"] + 1,
+               "f-end": f["addr"] + f["size"], "f-past": f["addr"] + f["size"] + 0x10}[d]
+    return new if new >= st.brk_base else None
 
 
 def events(st):
@@ -244,12 +278,14 @@ def events(st):
                     continue
                 for n in SIZES:
                     evs.append(("mmap", hint, n, fixed))
+        for fixed in (1, 0):
+            for hint in BRK_HINTS:
+                for n in BRK_HINT_SIZES:
+                    evs.append(("mmap", hint, n, fixed))
         evs.append(("brk", "query"))
-        evs.append(("brk", "same"))
-        for d in (1, 0x1000, 0x1001):
-            evs.append(("brk", d))
-        if st.brk_cur - 0x1000 >= st.brk_base:
-            evs.append(("brk", -0x1000))
+        for d in ("same", 1, 0x1000, 0x1001, -0x1000) + BRK_TARGETS:
+            if _brk_target(st, d) is not None:
+                evs.append(("brk", d))
     return evs
 
 
@@ -323,24 +359,37 @@ def _apply(st, ev, api, probs):
                 if got != st.brk_cur:
                     probs.append(("brk:query-wrong", "brk(0) = 0x%x, break is 0x%x" % (got, st.brk_cur)))
             else:
-                new = st.brk_cur + (0 if d == "same" else d)
+                new = _brk_target(st, d)
+                old = st.brk_cur
                 got = st.env.brk(new, st.vm)
+                obstacles = [o for o in st.preexisting + st.live if o["size"] and old < o["addr"] + o["size"] and o["addr"] < new]
+                kind = "same" if new == old else "grow" if new > old else "shrink"
                 if got == new:
-                    old = st.brk_cur
                     if new > old:
-                        if not _covered(_pages(st), old, new - old):
+                        if not _covered(_pages(st), st.brk_base, new - st.brk_base):
                             st.broken = True
-                            probs.append(("brk:grow:not-mapped", "brk(0x%x) from 0x%x: new area not covered by pages %s" % (
-                                new, old, [(hex(a), hex(s)) for a, s in _pages(st)])))
-                        for o in st.preexisting + st.live:
-                            if o["size"] and old < o["addr"] + o["size"] and o["addr"] < new:
-                                st.broken = True
-                                probs.append(("brk:grow:overlaps-live:prev-%s" % o["api"].split(":")[0],
-                                              "brk grew over [0x%x, 0x%x), live %s allocation at [0x%x, 0x%x)" % (
-                                                  old, new, o["api"], o["addr"], o["addr"] + o["size"])))
+                            probs.append(("brk:grow:data-segment-not-mapped:%s" % ("foreign-mapping-above" if _foreign_above(st) else "plain"),
+                                          "brk(0x%x) from 0x%x returned 0x%x but [0x%x, 0x%x) is not covered by the pages %s" % (
+                                              new, old, got, st.brk_base, new, [(hex(a), hex(s)) for a, s in _pages(st)])))
+                        for o in obstacles:
+                            st.broken = True
+                            probs.append(("brk:grow:overlaps-live:prev-%s" % o["api"].split(":")[0],
+                                          "brk(0x%x) grew the data segment over [0x%x, 0x%x), which holds the live %s allocation [0x%x, 0x%x)" % (
+                                              new, old, new, o["api"], o["addr"], o["addr"] + o["size"])))
                     st.brk_cur = new
-                # got != new: the request was refused (Linux returns the unchanged break): nothing changes
-                st.last = (api, "same" if d == "same" else "grow" if d > 0 else "shrink", "moved" if got == new else "refused")
+                    res = "moved"
+                elif got == old:
+                    # refused, as Linux does (the break is returned unchanged): legitimate only if something is in the way
+                    if not obstacles:
+                        st.broken = True
+                        probs.append(("brk:%s:refused-without-obstacle" % kind,
+                                      "brk(0x%x) from 0x%x was refused although no live allocation lies in [0x%x, 0x%x)" % (new, old, old, new)))
+                    res = "refused"
+                else:
+                    st.broken = True
+                    probs.append(("brk:%s:returned-neither-old-nor-new" % kind, "brk(0x%x) from 0x%x returned 0x%x" % (new, old, got)))
+                    res = "odd"
+                st.last = (api, kind if isinstance(d, int) or d == "same" else d, res)
     except Exception as e:
         st.broken = True
         st.last = st.last[:1] + ("raise:" + type(e).__name__,)
